@@ -80,3 +80,5 @@ Print Assumptions C15_coeff_from_three_bytes.
 Print Assumptions C15_coeff_from_half_byte.
 Print Assumptions C15_zeta_table.
 Print Assumptions C15_f_mont.
+(* T4: the kernels of this file's theorems are literally what /repo/src says today *)
+Check F204.Proofs.KernelAgree.kernels_agree.
